@@ -37,19 +37,23 @@ std::string asmCase(const vio::Case &c) {
   g_passes = 0;
   std::string outName = "asm_out.bin";
   unlink(outName.c_str());
-  for (int k = 0; k < 64; k++) {   // C11: unrelated assemblies earlier in the same process
+  // C11: unrelated assemblies earlier in the same process; with the field `reuse` through the same lexer and parser
+  hexasm::Lexer lexer;
+  hexasm::Parser parser(lexer);
+  bool reuse = c.has("reuse");
+  for (int k = 0; k < 64; k++) {
     std::string key = "pre" + std::to_string(k);
     if (!c.has(key.c_str())) break;
     try {
       hexasm::Lexer l0; hexasm::Parser p0(l0);
-      l0.loadBuffer(c.str(key.c_str()));
-      auto prog0 = p0.parseProgram();
+      hexasm::Lexer &lx = reuse ? lexer : l0;
+      hexasm::Parser &px = reuse ? parser : p0;
+      lx.loadBuffer(c.str(key.c_str()));
+      auto prog0 = px.parseProgram();
       hexasm::CodeGen cg0(prog0);
       std::ostringstream os0; cg0.emitProgramBin(os0);
     } catch (...) {}
   }
-  hexasm::Lexer lexer;
-  hexasm::Parser parser(lexer);
   try {
     lexer.loadBuffer(c.str("src"));
     auto program = parser.parseProgram();
